@@ -106,6 +106,19 @@ fn payload(n: usize, pat: usize, per: usize, nl: usize) -> Vec<u8> {
                             alpha(97, i, 7)
                         }
                     }
+                    // wave 3: valid UTF-8 that is not ASCII — groups of three bytes: the 3-byte character
+                    // U+6771, every tenth group a newline followed by the 2-byte character U+00E9; what does not
+                    // fill a group at the end of the body is ASCII
+                    7 => {
+                        let body = n - nl;
+                        if i >= body - body % 3 {
+                            122
+                        } else if (i / 3) % 10 == 9 {
+                            [10u8, 0xC3, 0xA9][i % 3]
+                        } else {
+                            [0xE6u8, 0x9D, 0xB1][i % 3]
+                        }
+                    }
                     _ => alpha(97, i, 7),
                 }
             }
@@ -2036,6 +2049,10 @@ fn rp_filler(k: usize, salt: usize) -> Vec<u8> {
 
 fn rp_char(cs: usize) -> &'static [u8] {
     match cs {
+        // wave 3: backslash sequences of the non-raw reader: continuation, escaped backslash, escaped letter
+        5 => b"\\\n",
+        6 => b"\\\\",
+        7 => b"\\x",
         2 => "\u{e9}".as_bytes(),
         3 => "\u{6771}".as_bytes(),
         _ => "\u{1F600}".as_bytes(),
@@ -2096,7 +2113,10 @@ fn run_rp(ws: &[&str]) -> (String, String) {
     want.extend_from_slice(&l2);
     want.push(b'\n');
     want.extend_from_slice(&rest);
-    let oracle = if got == want {
+    let oracle = if cs >= 5 {
+        // backslash sequences: what the lines are depends on `-r`; the model's Spec column says it
+        "-".to_string()
+    } else if got == want {
         "ok".to_string()
     } else {
         let at = got
@@ -2518,6 +2538,44 @@ fn main() {
         let n = rng.below(4 * PIPE_SIZE + 3);
         let case = gen_sh(&mut rng, n);
         run(&case, false);
+    }
+
+    // (ii-g') wave 3: `read` with and without -r on a pipe whose data is cut inside backslash sequences (continuation
+    // lines, escaped backslashes, escaped letters) at every byte position around the capacity boundaries
+    for &b in &[PIPE_BUF, PIPE_SIZE, 5usize] {
+        for d in 1..=2usize {
+            for cs in 5..=7usize {
+                let mut plans: Vec<(usize, usize, usize)> = vec![(0, 0, 0), (0, 1, 1), (0, 3, 0)];
+                for j in 1..7 {
+                    plans.push((b - d.min(b) + j, 0, 1));
+                }
+                for (first, piece, dl) in plans {
+                    for raw in 0..2 {
+                        run(&format!("rp b={b} d={d} cs={cs} first={first} piece={piece} dl={dl} raw={raw}"), false);
+                    }
+                }
+            }
+        }
+    }
+
+    // (ii-b') wave 3: shell flows whose payload is valid UTF-8 that is not ASCII (multi-byte characters across every
+    // capacity boundary, interior newlines, 0-5 and very many trailing newlines), through pipelines, nested
+    // command substitutions and here-documents with `$( )` bodies
+    let mut rng4 = Rng::new(opts.seed ^ 0xC14_0400);
+    for &n in &sizes {
+        for _ in 0..(if thorough { 12 } else { 1 }) {
+            let nl = [0, 1, 2, 5, PIPE_BUF + 88, PIPE_SIZE + 476][rng4.below(6)].min(n);
+            let src = *rng4.pick(&["gen", "file"]);
+            let shape = *rng4.pick(&["-", "c", "cc", "s", "ss", "cs", "sc", "csc", "h", "hc", "sh", "ycsy", "yyyy"]);
+            let kind = *rng4.pick(&["var", "var", "out", "file"]);
+            run(
+                &format!(
+                    "sh n={n} pat=7 per=0 nl={nl} src={src} shape={shape} kind={kind} pro=0 seed={}",
+                    rng4.below(1_000_000)
+                ),
+                false,
+            );
+        }
     }
 
     // (ii-a'') wave 3: concurrent pipelines `writer | M x forwarder | reader` (M = 1..3) as tasks of one Concurrent;
